@@ -298,7 +298,30 @@ def run(ctx):
             rt.inst("record_during_with", c.loc(b["value"].get("sp")), "ok", {"effects": effs})
         else:
             rt.violate("record_during_with", "frame push / closure / pop / leaf-only record are not in that order: %s" % effs, c.loc(b["value"].get("sp")))
-    rt.require(6, "decision functions")
+    # ---- furthest-position bookkeeping: only `prepare` moves the position, and every recorded attempt passed `prepare`
+    pos_writers = []
+    entry_sites = []
+    for fid in c.bodies:
+        if fid.startswith("pest_typed::tracker::") and "::tests::" not in fid:
+            b = c.body(fid)
+            for n, guards in inv.walk_guarded(c, b["value"]):
+                if n["k"] in ("assign", "assign_op") and n["l"]["k"] == "field" and n["l"]["name"] == "position":
+                    pos_writers.append(fid.rsplit("::", 1)[-1])
+                cal = n.get("callee")
+                if cal and strip_generics(cal["path"]) == strip_generics(T + "get_entry"):
+                    inv._LETS = {}
+                    entry_sites.append((fid.rsplit("::", 1)[-1], " && ".join(guards), c.loc(n.get("sp"))))
+    if sorted(set(pos_writers)) == ["prepare"]:
+        rt.inst("position: writers", None, "ok", {"writers": ["prepare"]})
+    else:
+        rt.violate("position: writers", "the furthest position is written in %s, expected only in `prepare` (which clears older attempts when it advances)" % sorted(set(pos_writers)))
+    for fn, g, loc in entry_sites:
+        key = "attempt recorded in " + fn
+        if "self.prepare(pos)" in g:
+            rt.inst(key, loc, "ok", {"guard": g})
+        else:
+            rt.violate(key, "an attempt list is filled without passing `prepare(pos)` (guard: %s): attempts of an earlier position may be reported at a later one" % (g or "none"), loc)
+    rt.require(10, "decision functions")
 
     # ---- polarity & wrap on EDTs
     rp = ctx.rule("R10-POLARITY", "positive look-ahead runs its operand under polarity true, negative look-ahead under polarity false")
